@@ -509,6 +509,23 @@ class Evaluator:
         if b.ty == STR and a.ty == STR:
             return z3.Contains(b.t, a.t)
         if isinstance(b.ty, TList):
+            et = b.ty.elem
+            if et in (INT, BOOL, STR) or isinstance(et, (TRec, TTuple, TAbs)):
+                # `x in L` Skolemised with a witness-index function W (conservative: W may be "the first index of x"):
+                #   x in L  :=  0 <= W(L,x) < len(L) and L[W(L,x)] == x ;  axiom: every L[k] is a member of L
+                try:
+                    x = coerce(a, et)
+                except OutOfSubset:
+                    return z3.BoolVal(False)
+                W = z3.Function('W_' + b.ty.name.replace('[', '_').replace(']', '_').replace(',', '_'), b.ty.sort(), et.sort(),
+                                z3.IntSort())
+                arr, n = b.ty.arr(b.t), list_len(b)
+                k = fresh('k', z3.IntSort())
+                ek = z3.Select(arr, k)
+                ctx.assume(z3.ForAll([k], z3.Implies(z3.And(0 <= k, k < n),
+                                                     z3.And(0 <= W(b.t, ek), W(b.t, ek) < n, z3.Select(arr, W(b.t, ek)) == ek))))
+                w = W(b.t, x.t)
+                return z3.And(0 <= w, w < n, z3.Select(arr, w) == x.t)
             k = fresh('k', z3.IntSort())
             return z3.Exists([k], z3.And(0 <= k, k < list_len(b), values_equal(list_at(b, k), a)))
         if isinstance(b.ty, TTuple):
@@ -587,6 +604,14 @@ class Evaluator:
 
     def ev_Call(self, n, ctx):
         return self.engine.call(n, ctx, self)
+
+    def ev_Dict(self, n, ctx):
+        if n.keys:
+            raise OutOfSubset('non-empty dict literal')
+        hint = getattr(n, '_dict_ty', None)
+        if hint is None:
+            raise OutOfSubset('dict literal without a type hint (contract `locals`)')
+        return V(hint, hint.mk(z3.K(hint.k.sort(), False), fresh('dflt', z3.ArraySort(hint.k.sort(), hint.v.sort()))))
 
     def ev_Lambda(self, n, ctx):
         raise OutOfSubset('lambda outside a modelled position')
